@@ -138,6 +138,7 @@ def Atom.testAny (ch : UInt8) : Atom → Bool
   | .istring cs => cs.contains ch
   | .utf8Range found lo hi => decide (lo ≤ ch.toNat ∧ ch.toNat ≤ hi) == found
   | .maxDigits _ => false
+  | .repOne _ _ c => c == ch
   | _ => true
 
 /-- One atom's `match( in )`. -/
@@ -181,6 +182,13 @@ def atomStep (cx : Ctx) (a : Atom) (st : St) : Bool × St :=
     | some (cp, n) =>
       if decide (lo ≤ cp ∧ cp ≤ hi) == found then (true, bumpHelp cx (a.testAny cx.eol.ch) st n) else (false, st)
     | none => (false, st)
+  | .repOne lo hi c =>
+    -- rep_one_min_max: look at `in.size( Max + 1 )` bytes, count the leading `c`s
+    let w := (windowBytes cx st).take (hi + 1)
+    if w.length < lo then (false, st)
+    else
+      let i := (w.takeWhile (· == c)).length
+      if lo ≤ i ∧ i ≤ hi then (true, bumpHelp cx (a.testAny cx.eol.ch) st i) else (false, st)
   | .maxDigits mx =>
     -- match_and_convert_unsigned_with_maximum_nothrow: the whole digit run, no leading zero, value ≤ mx
     let ds := (windowBytes cx st).takeWhile isDigitB
